@@ -12,9 +12,10 @@ from .script import ScriptRunner, hx
 
 
 class Node:
-    __slots__ = ('var', 'parent', 'name', 'probe', 'depth', 'symlen', 'kinds')
+    __slots__ = ('var', 'parent', 'name', 'probe', 'depth', 'symlen', 'kinds', 'namekey')
 
-    def __init__(self, var, parent, name, probe=False, symlen=None, kinds=('d', 'f')):
+    def __init__(self, var, parent, name, probe=False, symlen=None, kinds=('d', 'f'), namekey=None):
+        self.namekey = namekey or var
         self.var, self.parent, self.name, self.probe = var, parent, name, probe
         self.depth = 0
         self.symlen = symlen          # not None: the name is a symbolic byte string of this length
@@ -317,13 +318,13 @@ class Setup:
         for n in self.u.nodes:
             base = root if n.parent == 'R' else prefix + n.parent
             if n.symlen is not None:
-                key = 'nm_' + n.var
+                key = 'nm_' + n.namekey
                 if key not in sr.syms:
                     sr.syms[key] = S([ex.fresh(key, 8) for _ in range(n.symlen)])
                     ex.assume(valid_name(sr.syms[key]))
                     for o in self.u.nodes:
-                        ok_ = 'nm_' + o.var
-                        if o is not n and o.parent == n.parent and o.symlen == n.symlen and ok_ in sr.syms:
+                        ok_ = 'nm_' + o.namekey
+                        if o is not n and o.parent == n.parent and o.symlen == n.symlen and ok_ in sr.syms and ok_ != key:
                             ex.assume(znot(seq_eq(sr.syms[key], sr.syms[ok_])))
                         if o is not n and o.parent == n.parent and o.symlen is None and len(o.name.encode()) == n.symlen:
                             ex.assume(znot(seq_eq(sr.syms[key], S(o.name.encode()))))
